@@ -270,6 +270,72 @@ func RunTaggable(policyFile string, seed int64) (*Report, error) {
 			rep.mm(Mismatch{Props: []string{"C09"}, What: "tag pointer " + tc.ptr, Vector: tc.ptr, Expected: fmt.Sprintf("error=%v", tc.wantErr), Observed: fmt.Sprintf("panic=%v err=%v forwarded=%v", pan, perr, out != nil)})
 		}
 	}
+	// pointer segments with RFC 6901 escapes ("~1" is "/", "~0" is "~"): the tag applies to the key the pointer
+	// addresses and to that key only; the sibling keys, among them the raw spelling of the segment and the spellings a
+	// wrong decoding order gives, are unclassified and leave redacted (F18)
+	escKeys := []string{"a/b", "a~b", "a~1b", "a~0b", "a~01b", "a~10b", "a~~b", "a//b", "plain"}
+	escape := func(k string) string { return strings.ReplaceAll(strings.ReplaceAll(k, "~", "~0"), "/", "~1") }
+	for _, co := range [][2]string{{"public", ""}, {"secret", ""}, {"sensitive", ""}, {"sensitive", "hmac-sha256"}} {
+		want := dict[co]
+		for _, target := range escKeys[:len(escKeys)-1] {
+			for _, nestedAt := range []bool{false, true} {
+				n++
+				rep.Vectors++
+				rep.Runs++
+				c := fmt.Sprintf("CANARY-%d-%d", seed, n)
+				mk := func() TMap {
+					inner := map[string]interface{}{}
+					for _, k := range escKeys {
+						inner[k] = c + "-" + k
+					}
+					if nestedAt {
+						return TMap{"top": c + "-top", "nested": inner}
+					}
+					return TMap(inner)
+				}
+				ptr := "/" + escape(target)
+				if nestedAt {
+					ptr = "/nested/" + escape(target)
+				}
+				curTags = []encrypt.PointerTag{{Pointer: ptr, Classification: encrypt.DataClassification(co[0]), Filter: encrypt.FilterOperation(co[1])}}
+				m, snap := mk(), mk()
+				vec := map[string]interface{}{"cls": co[0], "op": co[1], "pointer": ptr, "addressed_key": target}
+				out, perr, pan := process(&encrypt.Filter{Wrapper: w}, &eventlogger.Event{Type: "t", Payload: m, Formatted: map[string][]byte{}})
+				if pan != nil || perr != nil || out == nil {
+					rep.mm(Mismatch{Props: []string{"C09"}, What: "Process on a Taggable map with an escaped pointer", Vector: vec, Expected: "forwarded", Observed: fmt.Sprintf("panic=%v err=%v", pan, perr)})
+					continue
+				}
+				if !reflect.DeepEqual(map[string]interface{}(m), map[string]interface{}(snap)) {
+					rep.mm(Mismatch{Props: []string{"C10"}, What: "Process modified the Taggable map it was given", Vector: vec, Expected: snap, Observed: m})
+				}
+				om, _ := out.Payload.(TMap)
+				inner := map[string]interface{}(om)
+				if nestedAt {
+					inner, _ = om["nested"].(map[string]interface{})
+				}
+				if om == nil || inner == nil || len(inner) != len(escKeys) {
+					rep.mm(Mismatch{Props: []string{"C10"}, What: "keys of the forwarded map (escaped pointer)", Vector: vec, Expected: fmt.Sprintf("%d keys", len(escKeys)), Observed: fmt.Sprint(out.Payload)})
+					continue
+				}
+				for _, k := range escKeys {
+					val, _ := inner[k].(string)
+					form := Form(w, val, []byte(c+"-"+k))
+					exp := "redacted"
+					if k == target {
+						exp = want
+					}
+					if form != exp {
+						props := []string{"C09"}
+						if exp == "plain" {
+							props = []string{"C10", "C09"}
+						}
+						rep.mm(Mismatch{Props: props, What: "form of map value " + k + " after the filter (escaped pointer)", Vector: vec, Expected: exp, Observed: form, Class: "F18"})
+					}
+				}
+				rep.Nontrivial++
+			}
+		}
+	}
 	// nil and zero payloads are forwarded unchanged: the very same event comes back
 	type zs struct {
 		A string `class:"secret"`
